@@ -444,4 +444,8 @@ def run(prog, rep):
     rule_meta(prog, rep)
     rule_once(prog, rep)
     rule_memo(prog, rep)
-    rep.note("acyclic spreads, defined variables, leaf/composite selection rules are validation verdicts and are not decided (except the memo scope, C18.MEMO)")
+    # `in a valid document spreads are acyclic`: the completeness conditions of the cycle search
+    # (no Ok from inside the sibling loop; visited-set fresh per root) are shared with C21
+    from .C21 import rule_search
+    rule_search(prog, rep)
+    rep.note("acyclic spreads, defined variables, leaf/composite selection rules are validation verdicts and are not decided (except the memo scope, C18.MEMO, and the completeness conditions of the fragment-cycle search, C21.SEARCH)")
